@@ -287,7 +287,7 @@ impl<'ast> Visit<'ast> for V {
         let recv = squash(&toks(&*m.receiver));
         let name = m.method.to_string();
         match name.as_str() {
-            "store_str" if recv == "arena" => self.push(".store"),
+            "store_str" => self.push(".store"),
             "expect" | "unwrap" if matches!(&*m.receiver, Expr::MethodCall(i) if i.method == "store_str") || self.stored.contains(&recv) => self.push(".expectStored"),
             "hash_one" => self.push(".hashOne"),
             "from_hash" => self.push(".probe"),
